@@ -341,12 +341,8 @@ func checkSlotAccounting(p *Program, r *Result) {
 			// paired with an append to it.messageIndexes: the append dominates the increment and every path from
 			// the append round the record loop passes the increment
 			paired := false
-			for _, in := range instrsOf(s.fn) {
-				fs, ok := in.(*ssa.Store)
-				if !ok {
-					continue
-				}
-				if tn, f, _, ok := fieldRef(fs.Addr); !ok || tn != p.roles().qType || f != p.roles().qField {
+			for _, fs := range instrsOf(s.fn) {
+				if !storesRoleField(p, fs, p.roles().qType, p.roles().qField, 1) {
 					continue
 				}
 				if !(fs.Block() == s.in.Block() || fs.Block().Dominates(s.in.Block())) {
@@ -377,10 +373,8 @@ func checkSlotAccounting(p *Program, r *Result) {
 		case s.kind == "dec" && inRegion("indexedMessageIterator.NextInto", s.fn):
 			paired := false
 			for _, in := range s.in.Block().Instrs {
-				if fs, ok := in.(*ssa.Store); ok {
-					if tn, f, _, ok := fieldRef(fs.Addr); ok && tn == p.roles().cType && f == p.roles().cField {
-						paired = true
-					}
+				if storesRoleField(p, in, p.roles().cType, p.roles().cField, 1) {
+					paired = true
 				}
 			}
 			if paired {
@@ -625,4 +619,25 @@ func isRangeTest(iff *ssa.If) bool {
 	}
 	_, isPhi := b.X.(*ssa.Phi)
 	return isPhi
+}
+
+// storesRoleField: in stores into the given struct field, or calls a package function that does (depth levels down) -
+// it.queue.push(x) appends to the queue, it.queue.pop() advances the cursor.
+func storesRoleField(p *Program, in ssa.Instruction, typ, field string, depth int) bool {
+	switch x := in.(type) {
+	case *ssa.Store:
+		tn, f, _, ok := fieldRef(x.Addr)
+		return ok && tn == typ && f == field
+	case ssa.CallInstruction:
+		g := x.Common().StaticCallee()
+		if g == nil || g.Blocks == nil || depth <= 0 || !p.isRepoFunc(g) {
+			return false
+		}
+		for _, in2 := range instrsOf(g) {
+			if storesRoleField(p, in2, typ, field, depth-1) {
+				return true
+			}
+		}
+	}
+	return false
 }
